@@ -1,14 +1,22 @@
 //! C28 — Ignore rules behave like Git's.
 //!
-//! Bounded-exhaustive enumeration of ignore *configurations* (a global excludes file, a root
-//! `.gitignore`, a nested `a/.gitignore`, each with at most two lines built from a token
+//! Bounded-exhaustive enumeration of ignore *configurations* (a global excludes file and
+//! `.gitignore` files at two directory levels, each with at most two lines built from a token
 //! alphabet that covers negation, anchoring, directory-only patterns, `*`, `**`, `?`,
 //! character classes, escapes, comments and trailing spaces) crossed with every file and every
-//! directory path of depth <= 3 over six names.
+//! directory path of a small universe (depth <= 2 over six names, depth 3 below `a` and `b`).
 //!
 //! Reference: the installed `git check-ignore --no-index -v -n -z --stdin`, run hermetically
 //! (empty environment, no system/global configuration, `core.excludesFile` given explicitly)
 //! in scratch work trees in which every queried path really exists with the queried type.
+//!
+//! Two arrangements of the ignore files are used, both are real repositories for git and jj:
+//! * `top`: global excludes, `<root>/.gitignore`, `<root>/a/.gitignore` (one git process per
+//!   configuration and disk layout);
+//! * `sub`: no global / root file; the two files are `<root>/<slot>/.gitignore` and
+//!   `<root>/<slot>/a/.gitignore`, and the queried paths live below `<slot>/`. Many slots
+//!   (= many configurations) share one work tree and one git process, which is what makes the
+//!   two-line and two-file families affordable.
 //!
 //! Code under test, route 1 (all configurations): the walk the snapshotter performs, written
 //! out with the real `GitIgnoreFile::chain` / `matches_dir` / `matches_file`: the base ignores
@@ -19,7 +27,7 @@
 //! Route 2 (a sub-family): the real snapshotter (`TestWorkspace::snapshot_with_options` with
 //! `base_ignores`) on a working copy that contains the same files; the set of tracked paths
 //! must be exactly the files that route 1 (and therefore git) calls "not ignored". This
-//! binds the emulated walk of route 1 to `local_working_copy.rs`.
+//! binds the re-stated walk of route 1 to `local_working_copy.rs`.
 
 use std::collections::BTreeMap;
 use std::collections::BTreeSet;
@@ -54,11 +62,13 @@ use vcommon::machinery_failure;
 /// Names of path components. `ab` separates `a*` from `a` and `?` from `*`; `!a`, `#x` and
 /// `a ` (trailing space) are the names the escaped tokens are about.
 const NAMES: [&str; 6] = ["a", "b", "ab", "!a", "#x", "a "];
+/// First components below which depth-3 paths are enumerated.
+const DEEP_FIRST: [&str; 2] = ["a", "b"];
 
 #[derive(Clone, Debug)]
 struct Query {
     path: String,
-    /// `a`, `a/b`, `a/b/c` (the path itself last).
+    /// every ancestor directory, outermost first, then the path itself
     prefixes: Vec<String>,
     is_dir: bool,
 }
@@ -71,10 +81,13 @@ fn query(path: &str, is_dir: bool) -> Query {
 
 fn paths_of_depth(d: usize) -> Vec<String> {
     let mut out = vec![String::new()];
-    for _ in 0..d {
+    for level in 0..d {
         let mut next = vec![];
         for p in &out {
             for n in NAMES {
+                if d == 3 && level == 0 && !DEEP_FIRST.contains(&n) {
+                    continue;
+                }
                 next.push(if p.is_empty() { n.to_string() } else { format!("{p}/{n}") });
             }
         }
@@ -116,9 +129,10 @@ fn layouts() -> Vec<Layout> {
     };
     let l2 = Layout { name: "L2", dirs: d1.clone(), files: d2.clone(), queries: files_q(&d2), a_is_dir: true };
     let mut d12 = d1.clone();
-    d12.extend(d2.iter().cloned());
-    let l3 = Layout { name: "L3", dirs: d12.clone(), files: d3.clone(), queries: files_q(&d3), a_is_dir: true };
-    let mut d123 = d12.clone();
+    d12.extend(d2.iter().filter(|p| DEEP_FIRST.iter().any(|f| p.starts_with(&format!("{f}/")))).cloned());
+    let l3 = Layout { name: "L3", dirs: d12, files: d3.clone(), queries: files_q(&d3), a_is_dir: true };
+    let mut d123 = d1.clone();
+    d123.extend(d2.iter().cloned());
     d123.extend(d3.iter().cloned());
     let l4 = Layout {
         name: "L4",
@@ -130,6 +144,7 @@ fn layouts() -> Vec<Layout> {
     vec![l1, l1n, l2, l3, l4]
 }
 
+/// The layouts whose answers count for a configuration.
 fn layouts_for(cfg: &Config) -> [usize; 4] {
     if cfg.nested.is_some() { [L1N, L2, L3, L4] } else { [L1, L2, L3, L4] }
 }
@@ -139,7 +154,9 @@ fn layouts_for(cfg: &Config) -> [usize; 4] {
 
 #[derive(Clone, Debug, PartialEq, Eq, PartialOrd, Ord)]
 struct Config {
-    /// contents of the global excludes file, the root `.gitignore`, and `a/.gitignore`
+    /// `false`: arrangement `top` (global excludes, `.gitignore`, `a/.gitignore`);
+    /// `true`: arrangement `sub` (`<slot>/.gitignore`, `<slot>/a/.gitignore`, no global).
+    sub: bool,
     global: Option<String>,
     root: Option<String>,
     nested: Option<String>,
@@ -147,14 +164,17 @@ struct Config {
 
 impl Config {
     fn to_json(&self) -> Value {
-        json!({"global": self.global, "root": self.root, "nested": self.nested})
+        json!({"arrangement": if self.sub { "sub" } else { "top" }, "global": self.global, "root": self.root, "nested": self.nested})
     }
     fn from_json(v: &Value) -> Config {
         let get = |k: &str| v[k].as_str().map(|s| s.to_string());
-        Config { global: get("global"), root: get("root"), nested: get("nested") }
+        Config { sub: v["arrangement"] == "sub", global: get("global"), root: get("root"), nested: get("nested") }
     }
-    fn single(pos: usize, content: String) -> Config {
-        let mut c = Config { global: None, root: None, nested: None };
+    fn empty(sub: bool) -> Config {
+        Config { sub, global: None, root: None, nested: None }
+    }
+    fn single(sub: bool, pos: usize, content: String) -> Config {
+        let mut c = Config::empty(sub);
         c.set(pos, content);
         c
     }
@@ -170,7 +190,11 @@ impl Config {
             None => "-".to_string(),
             Some(s) => format!("{s:?}"),
         };
-        format!("global={} root/.gitignore={} a/.gitignore={}", f(&self.global), f(&self.root), f(&self.nested))
+        if self.sub {
+            format!("<slot>/.gitignore={} <slot>/a/.gitignore={}", f(&self.root), f(&self.nested))
+        } else {
+            format!("global={} .gitignore={} a/.gitignore={}", f(&self.global), f(&self.root), f(&self.nested))
+        }
     }
 }
 
@@ -225,7 +249,8 @@ struct LineSets {
 fn line_sets() -> LineSets {
     let mut full = gen_lines(&TOKENS, &TOKENS);
     full.extend(SPECIALS.iter().map(|s| s.to_string()));
-    let core = gen_lines(&TOKENS, &TOKENS2_CORE);
+    let mut core = gen_lines(&TOKENS, &TOKENS2_CORE);
+    core.extend(SPECIALS.iter().map(|s| s.to_string()));
     let mini = with_flags(&MINI_BODIES.iter().map(|s| s.to_string()).collect::<Vec<_>>());
     let mut tiny = vec![];
     for neg in ["", "!"] {
@@ -236,82 +261,109 @@ fn line_sets() -> LineSets {
     LineSets { full: dedup(full), core: dedup(core), mini: dedup(mini), tiny: dedup(tiny) }
 }
 
-const POS_NAMES: [&str; 3] = ["global", "root", "nested"];
+fn pairs(sub: bool, p1: usize, p2: usize, s1: &[String], s2: &[String], out: &mut Vec<Config>) {
+    for l1 in s1 {
+        for l2 in s2 {
+            let mut cfg = Config::single(sub, p1, content(&[l1]));
+            cfg.set(p2, content(&[l2]));
+            out.push(cfg);
+        }
+    }
+}
+
+fn two_lines(sub: bool, pos: usize, set: &[String], out: &mut Vec<Config>) {
+    for l1 in set {
+        for l2 in set {
+            out.push(Config::single(sub, pos, content(&[l1, l2])));
+        }
+    }
+}
 
 /// The enumerated families, in order, with a name for the coverage statement.
 fn families(thorough: bool, ls: &LineSets) -> Vec<(&'static str, Vec<Config>)> {
     let mut fams: Vec<(&'static str, Vec<Config>)> = vec![];
-    // A: one file, one line, full line set, every position (+ no final newline at the root)
+    // A: one file with one line, every position of both arrangements
+    // (+ the same line without a final newline in the root file)
+    let a_set: &[String] = if thorough { &ls.full } else { &ls.core };
     let mut a = vec![];
     for pos in 0..3 {
-        for l in &ls.full {
-            a.push(Config::single(pos, content(&[l])));
+        for l in a_set {
+            a.push(Config::single(false, pos, content(&[l])));
         }
     }
-    for l in &ls.full {
+    for l in a_set {
         if !l.is_empty() {
-            a.push(Config::single(1, l.clone()));
+            a.push(Config::single(false, 1, l.clone()));
         }
     }
-    fams.push(("A:one-file-one-line(full)", a));
-    // B: one file, two lines
+    fams.push(("A-top:one-file-one-line", a));
+    let mut a_sub = vec![];
+    for pos in 1..3 {
+        for l in &ls.full {
+            a_sub.push(Config::single(true, pos, content(&[l])));
+        }
+    }
+    fams.push(("A-sub:one-file-one-line(full)", a_sub));
+    // B: one file with two lines
     let mut b = vec![];
-    let (b_root, b_other): (&[String], &[String]) =
-        if thorough { (&ls.core, &ls.mini) } else { (&ls.mini, &ls.tiny) };
     for pos in 0..3 {
-        let set = if pos == 1 { b_root } else { b_other };
-        for l1 in set {
-            for l2 in set {
-                b.push(Config::single(pos, content(&[l1, l2])));
-            }
-        }
+        two_lines(false, pos, if thorough && pos == 1 { &ls.mini } else { &ls.tiny }, &mut b);
     }
-    fams.push(("B:one-file-two-lines", b));
-    // C: two files, one line each
-    let c_set: &[String] = if thorough { &ls.core } else { &ls.mini };
+    fams.push(("B-top:one-file-two-lines", b));
+    let mut b_sub = vec![];
+    two_lines(true, 1, if thorough { &ls.core } else { &ls.mini }, &mut b_sub);
+    two_lines(true, 2, &ls.mini, &mut b_sub);
+    fams.push(("B-sub:one-file-two-lines", b_sub));
+    // C: two files with one line each
     let mut c = vec![];
-    for (p1, p2) in [(0usize, 1usize), (1, 2), (0, 2)] {
-        for l1 in c_set {
-            for l2 in c_set {
-                let mut cfg = Config::single(p1, content(&[l1]));
-                cfg.set(p2, content(&[l2]));
-                c.push(cfg);
-            }
-        }
+    if thorough {
+        pairs(false, 0, 1, &ls.mini, &ls.mini, &mut c);
+        pairs(false, 1, 2, &ls.mini, &ls.mini, &mut c);
+        pairs(false, 0, 2, &ls.mini, &ls.mini, &mut c);
+    } else {
+        pairs(false, 0, 1, &ls.mini, &ls.tiny, &mut c);
+        pairs(false, 0, 1, &ls.tiny, &ls.mini, &mut c);
+        pairs(false, 1, 2, &ls.tiny, &ls.tiny, &mut c);
+        pairs(false, 0, 2, &ls.tiny, &ls.tiny, &mut c);
     }
-    fams.push(("C:two-files-one-line-each", c));
-    // D: three files, one line each
-    let d_set: &[String] = if thorough { &ls.mini } else { &ls.tiny };
+    fams.push(("C-top:two-files-one-line-each", c));
+    let mut c_sub = vec![];
+    let c_set: &[String] = if thorough { &ls.core } else { &ls.mini };
+    pairs(true, 1, 2, c_set, c_set, &mut c_sub);
+    fams.push(("C-sub:two-files-one-line-each", c_sub));
+    // D: three files with one line each (arrangement top only)
     let mut d = vec![];
+    let (d_set, d_mid): (&[String], &[String]) = if thorough { (&ls.tiny, &ls.mini) } else { (&ls.tiny, &ls.tiny) };
     for l0 in d_set {
-        for l1 in d_set {
+        for l1 in d_mid {
             for l2 in d_set {
-                let mut cfg = Config::single(0, content(&[l0]));
+                let mut cfg = Config::single(false, 0, content(&[l0]));
                 cfg.set(1, content(&[l1]));
                 cfg.set(2, content(&[l2]));
                 d.push(cfg);
             }
         }
     }
-    fams.push(("D:three-files-one-line-each", d));
-    // E: two files, two lines each (thorough)
-    if thorough {
-        let mut e = vec![];
-        for (p1, p2) in [(0usize, 1usize), (1, 2), (0, 2)] {
-            for l1 in &ls.tiny {
-                for l2 in &ls.tiny {
-                    for l3 in &ls.tiny {
-                        for l4 in &ls.tiny {
-                            let mut cfg = Config::single(p1, content(&[l1, l2]));
-                            cfg.set(p2, content(&[l3, l4]));
-                            e.push(cfg);
-                        }
-                    }
+    fams.push(("D-top:three-files-one-line-each", d));
+    // E: two files with two lines each
+    let mut e = vec![];
+    let e_set: Vec<String> = if thorough {
+        ls.tiny.clone()
+    } else {
+        ["a", "!a", "a/", "*"].iter().map(|s| s.to_string()).collect()
+    };
+    for l1 in &e_set {
+        for l2 in &e_set {
+            for l3 in &e_set {
+                for l4 in &e_set {
+                    let mut cfg = Config::single(true, 1, content(&[l1, l2]));
+                    cfg.set(2, content(&[l3, l4]));
+                    e.push(cfg);
                 }
             }
         }
-        fams.push(("E:two-files-two-lines-each(tiny)", e));
     }
+    fams.push(("E-sub:two-files-two-lines-each", e));
     // distinctness across and inside families
     let mut seen: BTreeSet<Config> = BTreeSet::new();
     for (_, v) in &mut fams {
@@ -320,12 +372,10 @@ fn families(thorough: bool, ls: &LineSets) -> Vec<(&'static str, Vec<Config>)> {
     fams
 }
 
-/// The sub-family also run through the real snapshotter.
+/// The sub-family also run through the real snapshotter (arrangement `top`).
 fn snapshot_family(thorough: bool, ls: &LineSets) -> Vec<Config> {
     let mut lines: Vec<String> = if thorough { ls.core.clone() } else { ls.mini.clone() };
-    if thorough {
-        lines.extend(SPECIALS.iter().map(|s| s.to_string()));
-    } else {
+    if !thorough {
         // the escape / class tokens once each, so that the quick tier also sees them on disk
         for t in TOKENS {
             lines.push(t.to_string());
@@ -336,7 +386,7 @@ fn snapshot_family(thorough: bool, ls: &LineSets) -> Vec<Config> {
     let mut out = vec![];
     for pos in 0..3 {
         for l in &lines {
-            out.push(Config::single(pos, content(&[l])));
+            out.push(Config::single(false, pos, content(&[l])));
         }
     }
     // a few multi-file configurations: negation below an ignored directory, nested overrides
@@ -349,6 +399,7 @@ fn snapshot_family(thorough: bool, ls: &LineSets) -> Vec<Config> {
         (None, Some("*\n!.gitignore\n"), Some("!*\n")),
     ] {
         out.push(Config {
+            sub: false,
             global: g.map(|s: &str| s.to_string()),
             root: r.map(|s: &str| s.to_string()),
             nested: n.map(|s: &str| s.to_string()),
@@ -360,10 +411,23 @@ fn snapshot_family(thorough: bool, ls: &LineSets) -> Vec<Config> {
 // ---------------------------------------------------------------------------------------
 // the reference: git check-ignore in scratch work trees
 
+/// Number of configurations of arrangement `sub` answered by one git process.
+const SLOTS: usize = 32;
+
+fn slot_dir(slot: usize, layout: &Layout) -> String {
+    format!("s{slot:02}{}", layout.name)
+}
+
 struct GitEnv {
-    /// one work tree per layout
+    dir: PathBuf,
+    /// arrangement top: one work tree per layout
     trees: Vec<PathBuf>,
+    /// arrangement sub: one work tree with SLOTS x layouts directories
+    batch_tree: PathBuf,
+    /// queries of the batch tree in the order of its query file: (slot, layout, query with full path)
+    batch_queries: Vec<(usize, usize, Query)>,
     global_file: PathBuf,
+    empty_file: PathBuf,
     home: PathBuf,
 }
 
@@ -389,73 +453,99 @@ fn git_command(home: &Path) -> Command {
     cmd
 }
 
+fn setup_fail(what: &str, e: String) -> ! {
+    machinery_failure(&format!("git scratch setup: {what}: {e}"))
+}
+
+fn materialize(root: &Path, layout: &Layout) {
+    std::fs::create_dir_all(root).unwrap_or_else(|e| setup_fail("mkdir", e.to_string()));
+    for d in &layout.dirs {
+        std::fs::create_dir_all(root.join(d)).unwrap_or_else(|e| setup_fail("mkdir layout dir", e.to_string()));
+    }
+    for f in &layout.files {
+        std::fs::write(root.join(f), b"x").unwrap_or_else(|e| setup_fail("write layout file", e.to_string()));
+    }
+}
+
+fn write_queries<'a>(path: &Path, queries: impl Iterator<Item = &'a Query>) {
+    let mut q = vec![];
+    for query in queries {
+        q.extend_from_slice(query.path.as_bytes());
+        q.push(0);
+    }
+    std::fs::write(path, q).unwrap_or_else(|e| setup_fail("write queries", e.to_string()));
+}
+
+fn put(path: PathBuf, content: Option<&String>) {
+    match content {
+        Some(c) => std::fs::write(&path, c.as_bytes())
+            .unwrap_or_else(|e| machinery_failure(&format!("write {}: {e}", path.display()))),
+        None => {
+            let _ = std::fs::remove_file(&path);
+        }
+    }
+}
+
 impl GitEnv {
-    fn new(dir: &Path, layouts: &[Layout]) -> GitEnv {
-        let fail = |what: &str, e: String| -> ! { machinery_failure(&format!("git scratch setup: {what}: {e}")) };
-        std::fs::create_dir_all(dir).unwrap_or_else(|e| fail("mkdir", e.to_string()));
+    fn new(dir: &Path, layouts: &[Layout], slots: usize) -> GitEnv {
+        std::fs::create_dir_all(dir).unwrap_or_else(|e| setup_fail("mkdir", e.to_string()));
         let home = dir.join("home");
-        std::fs::create_dir_all(&home).unwrap_or_else(|e| fail("mkdir home", e.to_string()));
+        std::fs::create_dir_all(&home).unwrap_or_else(|e| setup_fail("mkdir home", e.to_string()));
+        let init = |t: &Path| {
+            std::fs::create_dir_all(t).unwrap_or_else(|e| setup_fail("mkdir tree", e.to_string()));
+            let out = git_command(&home)
+                .args(["init", "-q", "--template="])
+                .arg(t)
+                .output()
+                .unwrap_or_else(|e| setup_fail("spawn git init", e.to_string()));
+            if !out.status.success() {
+                setup_fail("git init", String::from_utf8_lossy(&out.stderr).to_string());
+            }
+        };
         let mut trees = vec![];
         for l in layouts {
             let t = dir.join(l.name);
-            std::fs::create_dir_all(&t).unwrap_or_else(|e| fail("mkdir tree", e.to_string()));
-            let out = git_command(&home)
-                .args(["init", "-q", "--template="])
-                .arg(&t)
-                .output()
-                .unwrap_or_else(|e| fail("spawn git init", e.to_string()));
-            if !out.status.success() {
-                fail("git init", String::from_utf8_lossy(&out.stderr).to_string());
-            }
-            for d in &l.dirs {
-                std::fs::create_dir_all(t.join(d)).unwrap_or_else(|e| fail("mkdir layout dir", e.to_string()));
-            }
-            for f in &l.files {
-                std::fs::write(t.join(f), b"x").unwrap_or_else(|e| fail("write layout file", e.to_string()));
-            }
-            // the query list is fixed per layout: NUL separated
-            let mut q = vec![];
-            for query in &l.queries {
-                q.extend_from_slice(query.path.as_bytes());
-                q.push(0);
-            }
-            std::fs::write(dir.join(format!("{}.queries", l.name)), q)
-                .unwrap_or_else(|e| fail("write queries", e.to_string()));
+            init(&t);
+            materialize(&t, l);
+            write_queries(&dir.join(format!("{}.queries", l.name)), l.queries.iter());
             trees.push(t);
         }
-        GitEnv { trees, global_file: dir.join("global-excludes"), home }
-    }
-
-    fn install(&self, cfg: &Config, layouts: &[Layout], used: &[usize]) {
-        let put = |path: PathBuf, content: &Option<String>| match content {
-            Some(c) => std::fs::write(&path, c.as_bytes())
-                .unwrap_or_else(|e| machinery_failure(&format!("write {}: {e}", path.display()))),
-            None => {
-                let _ = std::fs::remove_file(&path);
+        let batch_tree = dir.join("batch");
+        let mut batch_queries = vec![];
+        if slots > 0 {
+            init(&batch_tree);
+            for slot in 0..slots {
+                for (li, l) in layouts.iter().enumerate() {
+                    let sd = slot_dir(slot, l);
+                    materialize(&batch_tree.join(&sd), l);
+                    for q in &l.queries {
+                        batch_queries.push((slot, li, query(&format!("{sd}/{}", q.path), q.is_dir)));
+                    }
+                }
             }
-        };
-        put(self.global_file.clone(), &Some(cfg.global.clone().unwrap_or_default()));
-        for &li in used {
-            put(self.trees[li].join(".gitignore"), &cfg.root);
-            if layouts[li].a_is_dir {
-                put(self.trees[li].join("a/.gitignore"), &cfg.nested);
-            } else if cfg.nested.is_some() {
-                machinery_failure("layout without directory a used for a nested configuration");
-            }
+            write_queries(&dir.join("batch.queries"), batch_queries.iter().map(|(_, _, q)| q));
+        }
+        let empty_file = dir.join("empty-excludes");
+        std::fs::write(&empty_file, b"").unwrap_or_else(|e| setup_fail("write", e.to_string()));
+        GitEnv {
+            dir: dir.to_path_buf(),
+            trees,
+            batch_tree,
+            batch_queries,
+            global_file: dir.join("global-excludes"),
+            empty_file,
+            home,
         }
     }
 
-    fn ask(&self, layouts: &[Layout], li: usize) -> Vec<GitAnswer> {
-        let layout = &layouts[li];
-        let tree = &self.trees[li];
-        let qfile = tree.parent().unwrap().join(format!("{}.queries", layout.name));
-        let stdin = std::fs::File::open(&qfile)
+    fn run_git(&self, tree: &Path, excludes: &Path, query_file: &Path, n_queries: usize) -> Vec<GitAnswer> {
+        let stdin = std::fs::File::open(query_file)
             .unwrap_or_else(|e| machinery_failure(&format!("open queries: {e}")));
         let out = git_command(&self.home)
             .arg("-C")
             .arg(tree)
             .arg("-c")
-            .arg(format!("core.excludesFile={}", self.global_file.display()))
+            .arg(format!("core.excludesFile={}", excludes.display()))
             .args(["check-ignore", "--no-index", "-v", "-n", "-z", "--stdin"])
             .stdin(Stdio::from(stdin))
             .stdout(Stdio::piped())
@@ -473,33 +563,63 @@ impl GitEnv {
         if fields.last().is_some_and(|f| f.is_empty()) {
             fields.pop();
         }
-        if fields.len() != 4 * layout.queries.len() {
+        if fields.len() != 4 * n_queries {
             machinery_failure(&format!(
-                "git check-ignore printed {} fields for {} queries in {}",
+                "git check-ignore printed {} fields for {n_queries} queries ({})",
                 fields.len(),
-                layout.queries.len(),
-                layout.name
+                query_file.display()
             ));
         }
-        let mut answers = Vec::with_capacity(layout.queries.len());
-        for (i, q) in layout.queries.iter().enumerate() {
-            let f = &fields[4 * i..4 * i + 4];
-            if f[3] != q.path.as_bytes() {
-                machinery_failure(&format!(
-                    "git check-ignore answered for {:?} where {:?} was asked",
-                    String::from_utf8_lossy(f[3]),
-                    q.path
-                ));
-            }
-            let pattern = String::from_utf8_lossy(f[2]).to_string();
-            answers.push(GitAnswer {
-                ignored: !pattern.is_empty() && !pattern.starts_with('!'),
-                source: String::from_utf8_lossy(f[0]).to_string(),
-                line: String::from_utf8_lossy(f[1]).to_string(),
-                pattern,
-            });
+        (0..n_queries)
+            .map(|i| {
+                let f = &fields[4 * i..4 * i + 4];
+                let pattern = String::from_utf8_lossy(f[2]).to_string();
+                GitAnswer {
+                    ignored: !pattern.is_empty() && !pattern.starts_with('!'),
+                    source: String::from_utf8_lossy(f[0]).to_string(),
+                    line: String::from_utf8_lossy(f[1]).to_string(),
+                    pattern,
+                }
+            })
+            .collect()
+    }
+
+    /// Arrangement top: install the files of `cfg` in the work tree of layout `li` and ask.
+    fn ask_top(&self, cfg: &Config, layouts: &[Layout], li: usize) -> Vec<GitAnswer> {
+        let layout = &layouts[li];
+        let tree = &self.trees[li];
+        put(self.global_file.clone(), Some(&cfg.global.clone().unwrap_or_default()));
+        put(tree.join(".gitignore"), cfg.root.as_ref());
+        if layout.a_is_dir {
+            put(tree.join("a/.gitignore"), cfg.nested.as_ref());
+        } else if cfg.nested.is_some() {
+            machinery_failure("layout without directory a used for a nested configuration");
         }
-        answers
+        self.run_git(
+            tree,
+            &self.global_file,
+            &self.dir.join(format!("{}.queries", layout.name)),
+            layout.queries.len(),
+        )
+    }
+
+    /// Arrangement sub: install up to SLOTS configurations and ask once. Returns the answers
+    /// in the order of `batch_queries`.
+    fn ask_batch(&self, cfgs: &[&Config], layouts: &[Layout], slots: usize) -> Vec<GitAnswer> {
+        if cfgs.len() > slots {
+            machinery_failure("batch larger than the number of slots");
+        }
+        for slot in 0..slots {
+            let cfg = cfgs.get(slot).copied();
+            for l in layouts {
+                let sd = self.batch_tree.join(slot_dir(slot, l));
+                put(sd.join(".gitignore"), cfg.and_then(|c| c.root.as_ref()));
+                if l.a_is_dir {
+                    put(sd.join("a/.gitignore"), cfg.and_then(|c| c.nested.as_ref()));
+                }
+            }
+        }
+        self.run_git(&self.batch_tree, &self.empty_file, &self.dir.join("batch.queries"), self.batch_queries.len())
     }
 }
 
@@ -507,16 +627,20 @@ impl GitEnv {
 // jj: the walk of the snapshotter over the real GitIgnoreFile
 
 struct Chains {
+    /// `SnapshotOptions::base_ignores`
     base: Arc<GitIgnoreFile>,
-    root: Arc<GitIgnoreFile>,
-    nested: Option<Arc<GitIgnoreFile>>,
+    /// the chain used for the entries of the root directory
+    top: Arc<GitIgnoreFile>,
+    /// directory -> chain used for the entries of that directory (it has a `.gitignore`)
+    enter: Vec<(String, Arc<GitIgnoreFile>)>,
 }
 
 fn rp(s: &str) -> &RepoPath {
     RepoPath::from_internal_string(s).unwrap_or_else(|e| machinery_failure(&format!("bad repo path {s:?}: {e}")))
 }
 
-fn build_chains(cfg: &Config) -> Result<Chains, String> {
+/// `slot`: the directory that plays the root in arrangement sub.
+fn build_chains(cfg: &Config, slot: Option<&str>) -> Result<Chains, String> {
     let base = match &cfg.global {
         // what the CLI does for core.excludesFile: chained at the root in front of everything
         Some(g) => GitIgnoreFile::empty()
@@ -524,37 +648,61 @@ fn build_chains(cfg: &Config) -> Result<Chains, String> {
             .map_err(|e| e.to_string())?,
         None => GitIgnoreFile::empty(),
     };
-    // FileSnapshotter::visit_directory: chain_with_file(dir, dir/.gitignore) when it exists
-    let root = match &cfg.root {
-        Some(r) => base
-            .chain(RepoPath::root(), Path::new(".gitignore"), r.as_bytes())
-            .map_err(|e| e.to_string())?,
-        None => base.clone(),
-    };
-    let nested = match &cfg.nested {
-        Some(n) => Some(
-            root.chain(rp("a"), Path::new("a/.gitignore"), n.as_bytes())
-                .map_err(|e| e.to_string())?,
-        ),
-        None => None,
-    };
-    Ok(Chains { base, root, nested })
+    // FileSnapshotter::visit_directory: chain_with_file(dir, dir/.gitignore) when the file exists
+    match slot {
+        None => {
+            let top = match &cfg.root {
+                Some(r) => base
+                    .chain(RepoPath::root(), Path::new(".gitignore"), r.as_bytes())
+                    .map_err(|e| e.to_string())?,
+                None => base.clone(),
+            };
+            let mut enter = vec![];
+            if let Some(n) = &cfg.nested {
+                let c = top
+                    .chain(rp("a"), Path::new("a/.gitignore"), n.as_bytes())
+                    .map_err(|e| e.to_string())?;
+                enter.push(("a".to_string(), c));
+            }
+            Ok(Chains { base, top, enter })
+        }
+        Some(slot) => {
+            let top = base.clone();
+            let mut enter = vec![];
+            let in_slot = match &cfg.root {
+                Some(r) => {
+                    let c = top
+                        .chain(rp(slot), &Path::new(slot).join(".gitignore"), r.as_bytes())
+                        .map_err(|e| e.to_string())?;
+                    enter.push((slot.to_string(), c.clone()));
+                    c
+                }
+                None => top.clone(),
+            };
+            if let Some(n) = &cfg.nested {
+                let d = format!("{slot}/a");
+                let c = in_slot
+                    .chain(rp(&d), &Path::new(&d).join(".gitignore"), n.as_bytes())
+                    .map_err(|e| e.to_string())?;
+                enter.push((d, c));
+            }
+            Ok(Chains { base, top, enter })
+        }
+    }
 }
 
 /// Returns (ignored, decided by a pruned ancestor directory).
 fn jj_ignored(ch: &Chains, q: &Query) -> (bool, bool) {
-    let mut chain = &ch.root;
+    let mut chain = &ch.top;
     let n = q.prefixes.len();
     for dir in &q.prefixes[..n - 1] {
-        // process_dir_entry on a directory
+        // process_dir_entry on a directory: pruned when it matches
         if chain.matches_dir(rp(dir)) {
             return (true, true);
         }
-        // visit_directory of that directory
-        if dir == "a"
-            && let Some(nested) = &ch.nested
-        {
-            chain = nested;
+        // visit_directory of that directory: its .gitignore is chained
+        if let Some((_, c)) = ch.enter.iter().find(|(d, _)| d == dir) {
+            chain = c;
         }
     }
     let p = rp(&q.path);
@@ -609,18 +757,27 @@ struct Mismatch {
     case: Value,
 }
 
-fn compare(cfg: &Config, q: &Query, git: &GitAnswer, jj: bool, jj_pruned: bool) -> Option<Mismatch> {
+fn walk_case(cfg: &Config, rel_path: &str, is_dir: bool) -> Value {
+    let mut case = cfg.to_json();
+    case["route"] = json!("walk");
+    case["path"] = json!(rel_path);
+    case["is_dir"] = json!(is_dir);
+    case
+}
+
+/// `rel_path`: the path relative to the root of the arrangement (without the slot directory).
+fn compare(cfg: &Config, rel_path: &str, is_dir: bool, git: &GitAnswer, jj: bool, jj_pruned: bool) -> Option<Mismatch> {
     if git.ignored == jj {
         return None;
     }
     let dir = if jj { "jj-ignores-git-does-not" } else { "git-ignores-jj-does-not" };
-    let kind = if q.is_dir { "dir" } else { "file" };
+    let kind = if is_dir { "dir" } else { "file" };
     let via = if jj_pruned { "/via-parent-dir" } else { "" };
     let signature = format!("C28/{dir}/{kind}{via}/git-rule:{}", line_form(&git.pattern));
     let message = format!(
         "{} {:?}: git check-ignore says {} (deciding pattern {:?} from {}:{}), jj's snapshot walk says {}{}; configuration: {}",
-        if q.is_dir { "directory" } else { "file" },
-        q.path,
+        if is_dir { "directory" } else { "file" },
+        rel_path,
         if git.ignored { "ignored" } else { "not ignored" },
         git.pattern,
         if git.source.is_empty() { "-" } else { &git.source },
@@ -629,11 +786,7 @@ fn compare(cfg: &Config, q: &Query, git: &GitAnswer, jj: bool, jj_pruned: bool) 
         if jj_pruned { " (an ancestor directory matched)" } else { "" },
         cfg.show()
     );
-    let mut case = cfg.to_json();
-    case["route"] = json!("walk");
-    case["path"] = json!(q.path);
-    case["is_dir"] = json!(q.is_dir);
-    Some(Mismatch { signature, message, case })
+    Some(Mismatch { signature, message, case: walk_case(cfg, rel_path, is_dir) })
 }
 
 // ---------------------------------------------------------------------------------------
@@ -655,7 +808,7 @@ fn snapshot_tracked(cfg: &Config, layout: &Layout) -> Result<BTreeSet<String>, S
     if let Some(n) = &cfg.nested {
         must(std::fs::write(root.join("a/.gitignore"), n.as_bytes()));
     }
-    let chains = build_chains(cfg)?;
+    let chains = build_chains(cfg, None)?;
     let options = SnapshotOptions {
         base_ignores: chains.base.clone(),
         progress: None,
@@ -674,7 +827,7 @@ fn snapshot_tracked(cfg: &Config, layout: &Layout) -> Result<BTreeSet<String>, S
 
 /// Files of the layout (+ the ignore files) that the walk of route 1 calls not ignored.
 fn predicted_tracked(cfg: &Config, layout: &Layout) -> Result<BTreeSet<String>, String> {
-    let chains = build_chains(cfg)?;
+    let chains = build_chains(cfg, None)?;
     let mut files: Vec<String> = layout.files.clone();
     if cfg.root.is_some() {
         files.push(".gitignore".to_string());
@@ -732,8 +885,10 @@ struct Tally {
     git_ignored: u64,
     git_negative_decides: u64,
     jj_pruned_by_parent: u64,
+    configs: u64,
     configs_with_ignored: u64,
     configs_with_negative: u64,
+    git_processes: u64,
     /// deciding (position, line) -> number of queries decided
     deciding: BTreeMap<(String, String), u64>,
 }
@@ -745,8 +900,10 @@ impl Tally {
         self.git_ignored += o.git_ignored;
         self.git_negative_decides += o.git_negative_decides;
         self.jj_pruned_by_parent += o.jj_pruned_by_parent;
+        self.configs += o.configs;
         self.configs_with_ignored += o.configs_with_ignored;
         self.configs_with_negative += o.configs_with_negative;
+        self.git_processes += o.git_processes;
         for (k, v) in o.deciding {
             *self.deciding.entry(k).or_insert(0) += v;
         }
@@ -754,87 +911,146 @@ impl Tally {
 }
 
 fn position_of_source(source: &str) -> &'static str {
-    if source == ".gitignore" {
+    if source.is_empty() {
+        "-"
+    } else if source == ".gitignore" {
         "root"
     } else if source == "a/.gitignore" {
         "nested"
-    } else if source.is_empty() {
-        "-"
+    } else if source.ends_with("/a/.gitignore") && !source.starts_with('/') {
+        "sub-nested"
+    } else if source.ends_with("/.gitignore") && !source.starts_with('/') {
+        "sub-root"
     } else {
         "global"
     }
 }
 
-fn run_config(cfg: &Config, env: &GitEnv, layouts: &[Layout], tally: &mut Tally) -> Vec<Mismatch> {
-    let used = layouts_for(cfg);
-    env.install(cfg, layouts, &used);
-    let chains = match catch(|| build_chains(cfg)) {
-        Ok(Ok(c)) => c,
-        Ok(Err(e)) => {
-            let mut case = cfg.to_json();
-            case["route"] = json!("walk");
-            return vec![Mismatch {
-                signature: "C28/chain/error".into(),
-                message: format!("GitIgnoreFile::chain failed: {e}; {}", cfg.show()),
-                case,
-            }];
-        }
+fn chain_failure(cfg: &Config, r: Result<Result<Chains, String>, String>) -> Result<Chains, Mismatch> {
+    match r {
+        Ok(Ok(c)) => Ok(c),
+        Ok(Err(e)) => Err(Mismatch {
+            signature: "C28/chain/error".into(),
+            message: format!("GitIgnoreFile::chain failed: {e}; {}", cfg.show()),
+            case: walk_case(cfg, "a", false),
+        }),
+        Err(e) => Err(Mismatch {
+            signature: "C28/chain/panic".into(),
+            message: format!("GitIgnoreFile::chain panicked: {e}; {}", cfg.show()),
+            case: walk_case(cfg, "a", false),
+        }),
+    }
+}
+
+struct PerConfig {
+    any_ignored: bool,
+    any_negative: bool,
+}
+
+/// One comparison.
+#[allow(clippy::too_many_arguments)]
+fn judge(
+    cfg: &Config,
+    chains: &Chains,
+    q: &Query,
+    rel_path: &str,
+    g: &GitAnswer,
+    tally: &mut Tally,
+    pc: &mut PerConfig,
+    out: &mut Vec<Mismatch>,
+) {
+    let (jj, pruned) = match catch(|| jj_ignored(chains, q)) {
+        Ok(r) => r,
         Err(e) => {
-            let mut case = cfg.to_json();
-            case["route"] = json!("walk");
-            return vec![Mismatch {
-                signature: "C28/chain/panic".into(),
-                message: format!("GitIgnoreFile::chain panicked: {e}; {}", cfg.show()),
-                case,
-            }];
+            out.push(Mismatch {
+                signature: "C28/matches/panic".into(),
+                message: format!("GitIgnoreFile::matches panicked on {:?}: {e}; {}", rel_path, cfg.show()),
+                case: walk_case(cfg, rel_path, q.is_dir),
+            });
+            return;
         }
     };
-    let mut out = vec![];
-    let mut any_ignored = false;
-    let mut any_negative = false;
-    for &li in &used {
-        let answers = env.ask(layouts, li);
-        for (q, g) in layouts[li].queries.iter().zip(&answers) {
-            let (jj, pruned) = match catch(|| jj_ignored(&chains, q)) {
-                Ok(r) => r,
-                Err(e) => {
-                    let mut case = cfg.to_json();
-                    case["route"] = json!("walk");
-                    case["path"] = json!(q.path);
-                    case["is_dir"] = json!(q.is_dir);
-                    out.push(Mismatch {
-                        signature: "C28/matches/panic".into(),
-                        message: format!("GitIgnoreFile::matches panicked on {:?}: {e}; {}", q.path, cfg.show()),
-                        case,
-                    });
-                    continue;
-                }
-            };
-            tally.comparisons += 1;
-            if !g.pattern.is_empty() {
-                tally.nontrivial += 1;
-                *tally
-                    .deciding
-                    .entry((position_of_source(&g.source).to_string(), g.pattern.clone()))
-                    .or_insert(0) += 1;
-                if g.ignored {
-                    tally.git_ignored += 1;
-                    any_ignored = true;
-                } else {
-                    tally.git_negative_decides += 1;
-                    any_negative = true;
-                }
-            }
-            if pruned {
-                tally.jj_pruned_by_parent += 1;
-            }
-            if let Some(m) = compare(cfg, q, g, jj, pruned) {
-                out.push(m);
-            }
+    tally.comparisons += 1;
+    if !g.pattern.is_empty() {
+        tally.nontrivial += 1;
+        *tally
+            .deciding
+            .entry((position_of_source(&g.source).to_string(), g.pattern.clone()))
+            .or_insert(0) += 1;
+        if g.ignored {
+            tally.git_ignored += 1;
+            pc.any_ignored = true;
+        } else {
+            tally.git_negative_decides += 1;
+            pc.any_negative = true;
         }
     }
-    tally.configs_with_ignored += any_ignored as u64;
-    tally.configs_with_negative += any_negative as u64;
+    if pruned {
+        tally.jj_pruned_by_parent += 1;
+    }
+    if let Some(m) = compare(cfg, rel_path, q.is_dir, g, jj, pruned) {
+        out.push(m);
+    }
+}
+
+fn run_top(cfg: &Config, env: &GitEnv, layouts: &[Layout], tally: &mut Tally) -> Vec<Mismatch> {
+    let chains = match chain_failure(cfg, catch(|| build_chains(cfg, None))) {
+        Ok(c) => c,
+        Err(m) => return vec![m],
+    };
+    let mut out = vec![];
+    let mut pc = PerConfig { any_ignored: false, any_negative: false };
+    for li in layouts_for(cfg) {
+        let answers = env.ask_top(cfg, layouts, li);
+        tally.git_processes += 1;
+        for (q, g) in layouts[li].queries.iter().zip(&answers) {
+            judge(cfg, &chains, q, &q.path, g, tally, &mut pc, &mut out);
+        }
+    }
+    tally.configs += 1;
+    tally.configs_with_ignored += pc.any_ignored as u64;
+    tally.configs_with_negative += pc.any_negative as u64;
+    out
+}
+
+fn run_batch(cfgs: &[&Config], env: &GitEnv, layouts: &[Layout], slots: usize, tally: &mut Tally) -> Vec<Mismatch> {
+    let answers = env.ask_batch(cfgs, layouts, slots);
+    tally.git_processes += 1;
+    let mut out = vec![];
+    let mut cur: Option<(usize, usize, Chains)> = None;
+    let mut pcs: Vec<PerConfig> = cfgs.iter().map(|_| PerConfig { any_ignored: false, any_negative: false }).collect();
+    let mut failed: BTreeSet<usize> = BTreeSet::new();
+    for ((slot, li, q), g) in env.batch_queries.iter().zip(&answers) {
+        let Some(cfg) = cfgs.get(*slot).copied() else {
+            // unused slot: there is no ignore file, git must not report anything
+            if !g.pattern.is_empty() {
+                machinery_failure("git reported a pattern in a slot without ignore files");
+            }
+            continue;
+        };
+        if !layouts_for(cfg).contains(li) || failed.contains(slot) {
+            continue;
+        }
+        let sd = slot_dir(*slot, &layouts[*li]);
+        if !cur.as_ref().is_some_and(|(s, l, _)| s == slot && l == li) {
+            match chain_failure(cfg, catch(|| build_chains(cfg, Some(&sd)))) {
+                Ok(c) => cur = Some((*slot, *li, c)),
+                Err(m) => {
+                    out.push(m);
+                    failed.insert(*slot);
+                    continue;
+                }
+            }
+        }
+        let chains = &cur.as_ref().unwrap().2;
+        let rel = &q.path[sd.len() + 1..];
+        judge(cfg, chains, q, rel, g, tally, &mut pcs[*slot], &mut out);
+    }
+    for pc in &pcs {
+        tally.configs += 1;
+        tally.configs_with_ignored += pc.any_ignored as u64;
+        tally.configs_with_negative += pc.any_negative as u64;
+    }
     out
 }
 
@@ -851,11 +1067,12 @@ fn replay(ctx: &Ctx, case: &Value, layouts: &[Layout]) {
         }
         return;
     }
-    let env = GitEnv::new(&ctx.scratch().join("git-replay"), layouts);
+    let env = GitEnv::new(&ctx.scratch().join("git-replay"), layouts, 1);
     let mut tally = Tally::default();
     let want_path = case["path"].as_str().map(|s| s.to_string());
     let want_dir = case["is_dir"].as_bool();
-    for m in run_config(&cfg, &env, layouts, &mut tally) {
+    let found = if cfg.sub { run_batch(&[&cfg], &env, layouts, 1, &mut tally) } else { run_top(&cfg, &env, layouts, &mut tally) };
+    for m in found {
         let same_query = match (&want_path, want_dir) {
             (Some(p), Some(d)) => m.case["path"] == json!(p) && m.case["is_dir"] == json!(d),
             _ => true,
@@ -889,22 +1106,22 @@ fn main() {
     let threads = rayon::current_num_threads().max(1);
     let envs: Vec<Mutex<GitEnv>> = (0..threads + 1)
         .into_par_iter()
-        .map(|i| Mutex::new(GitEnv::new(&ctx.scratch().join(format!("git{i}")), &layouts)))
+        .map(|i| Mutex::new(GitEnv::new(&ctx.scratch().join(format!("git{i}")), &layouts, SLOTS)))
         .collect();
     let env_for_thread = || {
         let i = rayon::current_thread_index().map(|i| i % threads).unwrap_or(threads);
         envs[i].lock().unwrap()
     };
+    eprintln!("[C28] scratch work trees ready, {:.1}s", ctx.elapsed_s());
 
-    // self-test of the reference driver: three configurations whose answers are fixed by
-    // git's documentation; a wrong answer means the driver (not jj) is broken.
+    // self-test of the reference driver: configurations whose answers are fixed by git's
+    // documentation; a wrong answer means the driver (not jj) is broken.
     {
         let env = env_for_thread();
-        let cfg = Config { global: None, root: Some("a/\n!b\n".into()), nested: None };
-        env.install(&cfg, &layouts, &layouts_for(&cfg));
-        let l4 = env.ask(&layouts, L4);
-        let l2 = env.ask(&layouts, L2);
-        let l1 = env.ask(&layouts, L1);
+        let cfg = Config { sub: false, global: None, root: Some("a/\n!b\n".into()), nested: None };
+        let l4 = env.ask_top(&cfg, &layouts, L4);
+        let l2 = env.ask_top(&cfg, &layouts, L2);
+        let l1 = env.ask_top(&cfg, &layouts, L1);
         let find = |ans: &[GitAnswer], li: usize, p: &str| {
             let i = layouts[li].queries.iter().position(|q| q.path == p).unwrap();
             ans[i].clone()
@@ -917,39 +1134,78 @@ fn main() {
             && !find(&l2, L2, "b/ab").ignored
             && find(&l2, L2, "b/ab").pattern.is_empty();
         if !ok {
-            machinery_failure("the git check-ignore driver does not give the documented answers on the self-test");
+            machinery_failure("the git check-ignore driver does not give the documented answers on the self-test (top)");
+        }
+        let sub = Config { sub: true, global: None, root: Some("/a\n".into()), nested: None };
+        let other = Config { sub: true, global: None, root: Some("b\n".into()), nested: Some("!b\n".into()) };
+        let ans = env.ask_batch(&[&sub, &other], &layouts, SLOTS);
+        let find = |slot: usize, li: usize, p: &str| {
+            let full = format!("{}/{p}", slot_dir(slot, &layouts[li]));
+            let i = env.batch_queries.iter().position(|(_, _, q)| q.path == full).unwrap();
+            ans[i].clone()
+        };
+        let ok = find(0, L1, "a").ignored
+            && !find(0, L2, "b/a").ignored
+            && find(0, L2, "a/b").ignored
+            && find(1, L2, "ab/b").ignored
+            && !find(1, L2, "a/b").ignored
+            && find(1, L4, "b/b/b").ignored
+            && !find(2, L1, "a").ignored;
+        if !ok {
+            machinery_failure("the git check-ignore driver does not give the documented answers on the self-test (sub)");
         }
     }
 
     let ls = line_sets();
     let fams = families(ctx.thorough(), &ls);
     let samples = Samples::new(8);
-    let configs_run = Counter::new();
     let mut total = Tally::default();
     let mut family_counts = serde_json::Map::new();
     for (name, cfgs) in &fams {
-        let tally = cfgs
-            .par_iter()
-            .with_min_len(8)
-            .fold(Tally::default, |mut tally, cfg| {
-                let env = env_for_thread();
-                let before = tally.git_ignored;
-                for m in run_config(cfg, &env, &layouts, &mut tally) {
-                    ctx.violation(&m.signature, m.message, m.case);
-                }
-                configs_run.inc();
-                if tally.git_ignored > before + 20 && samples.wants_more() {
-                    samples.offer(|| cfg.to_json());
-                }
-                tally
-            })
-            .reduce(Tally::default, |mut a, b| {
-                a.merge(b);
-                a
-            });
+        let is_sub = cfgs.first().is_some_and(|c| c.sub);
+        let tally = if is_sub {
+            let chunks: Vec<Vec<&Config>> = cfgs.chunks(SLOTS).map(|c| c.iter().collect()).collect();
+            chunks
+                .par_iter()
+                .fold(Tally::default, |mut tally, chunk| {
+                    let env = env_for_thread();
+                    for m in run_batch(chunk, &env, &layouts, SLOTS, &mut tally) {
+                        ctx.violation(&m.signature, m.message, m.case);
+                    }
+                    tally
+                })
+                .reduce(Tally::default, |mut a, b| {
+                    a.merge(b);
+                    a
+                })
+        } else {
+            cfgs.par_iter()
+                .fold(Tally::default, |mut tally, cfg| {
+                    let env = env_for_thread();
+                    let before = tally.git_ignored;
+                    for m in run_top(cfg, &env, &layouts, &mut tally) {
+                        ctx.violation(&m.signature, m.message, m.case);
+                    }
+                    if tally.git_ignored > before + 10 && samples.wants_more() {
+                        samples.offer(|| cfg.to_json());
+                    }
+                    tally
+                })
+                .reduce(Tally::default, |mut a, b| {
+                    a.merge(b);
+                    a
+                })
+        };
+        if tally.configs != cfgs.len() as u64 {
+            machinery_failure(&format!("family {name}: {} of {} configurations were evaluated", tally.configs, cfgs.len()));
+        }
+        if let Some(c) = cfgs.get(cfgs.len() / 2) {
+            samples.offer(|| c.to_json());
+        }
         family_counts.insert(
             name.to_string(),
-            json!({"configurations": cfgs.len(), "comparisons": tally.comparisons, "decided_by_a_rule": tally.nontrivial}),
+            json!({"configurations": cfgs.len(), "comparisons": tally.comparisons, "decided_by_a_rule": tally.nontrivial,
+                   "git_processes": tally.git_processes}),
         );
         total.merge(tally);
         eprintln!("[C28] family {name}: {} configurations, {:.1}s", cfgs.len(), ctx.elapsed_s());
@@ -975,13 +1231,11 @@ fn main() {
     });
     eprintln!("[C28] snapshot route: {} snapshots, {:.1}s", snap_runs.get(), ctx.elapsed_s());
 
-    // vacuity: which lines of the full set decided at least one query, per position
+    // vacuity: which rules decided at least one query
     let mut decided_lines: BTreeMap<&str, BTreeSet<&str>> = BTreeMap::new();
-    for ((pos, pattern), _) in &total.deciding {
+    for (pos, pattern) in total.deciding.keys() {
         decided_lines.entry(pos.as_str()).or_default().insert(pattern.as_str());
     }
-    // git prints the pattern as written except trailing blanks; compare on the trimmed form
-    let mut never: Vec<String> = vec![];
     let mut token_hits: BTreeMap<&str, u64> = TOKENS.iter().map(|t| (*t, 0)).collect();
     for ((_, pattern), n) in &total.deciding {
         for t in TOKENS {
@@ -990,6 +1244,8 @@ fn main() {
             }
         }
     }
+    // git prints the pattern as written, without trailing blanks
+    let mut never: Vec<String> = vec![];
     for l in &ls.full {
         let shown = l.trim_end_matches([' ', '\r']);
         let hit = decided_lines.values().any(|s| s.contains(shown) || s.contains(l.as_str()));
@@ -1005,28 +1261,30 @@ fn main() {
     let dironly_decides = flags(&|p| p.ends_with('/'));
     let globstar_decides = flags(&|p| p.contains("**"));
     let escape_decides = flags(&|p| p.contains('\\'));
-    for (what, n) in [
-        ("negation", neg_decides),
-        ("anchored", anchored_decides),
-        ("directory-only", dironly_decides),
-        ("globstar", globstar_decides),
-        ("escape", escape_decides),
-        ("pruned-by-parent", total.jj_pruned_by_parent),
-        ("snapshots", snap_runs.get()),
-        ("snapshot-ignored-files", snap_ignored.get()),
-    ] {
-        if n == 0 && ctx.violation_count() == 0 {
-            machinery_failure(&format!("vacuous: no query was decided by a {what} rule"));
+    if ctx.violation_count() == 0 {
+        for (what, n) in [
+            ("negation", neg_decides),
+            ("anchored", anchored_decides),
+            ("directory-only", dironly_decides),
+            ("globstar", globstar_decides),
+            ("escape", escape_decides),
+            ("pruned-by-parent", total.jj_pruned_by_parent),
+            ("snapshots", snap_runs.get()),
+            ("snapshot-ignored-files", snap_ignored.get()),
+        ] {
+            if n == 0 {
+                machinery_failure(&format!("vacuous: no query was decided by a {what} rule"));
+            }
         }
-    }
-    for (pos, set) in &decided_lines {
-        if set.is_empty() {
-            machinery_failure(&format!("vacuous: no rule of position {pos} ever decided"));
+        for t in TOKENS {
+            if token_hits[t] == 0 {
+                machinery_failure(&format!("vacuous: no query was decided by a rule containing the token {t:?}"));
+            }
         }
-    }
-    for p in ["global", "root", "nested"] {
-        if !decided_lines.contains_key(p) {
-            machinery_failure(&format!("vacuous: no rule of position {p} ever decided"));
+        for p in ["global", "root", "nested", "sub-root", "sub-nested"] {
+            if !decided_lines.contains_key(p) {
+                machinery_failure(&format!("vacuous: no rule of position {p} ever decided"));
+            }
         }
     }
 
@@ -1037,20 +1295,27 @@ fn main() {
         rule: format!(
             "one evaluation = one (configuration, path, file|directory) comparison of jj's snapshot walk over the real \
              GitIgnoreFile with `git check-ignore --no-index` ({version}), plus one per real snapshot of route 2. \
-             Configurations: global excludes / root .gitignore / a/.gitignore, lines = [!][/]body[/] with bodies of 1-2 \
-             components over {TOKENS:?} plus the special lines {SPECIALS:?}; families {:?}; configurations are \
-             de-duplicated, so all (configuration, query) pairs are distinct. Paths: every file and every directory of \
-             depth <= 3 over the names {NAMES:?} ({n_queries} queries per configuration; with a nested file the file \
-             `a` is not asked). Non-trivial = git reports a deciding pattern (positive or negative) for the path.",
+             Configurations: arrangement top = global excludes / .gitignore / a/.gitignore, arrangement sub = \
+             <slot>/.gitignore / <slot>/a/.gitignore; lines = [!][/]body[/] with bodies of 1-2 components over \
+             {TOKENS:?} plus the special lines {SPECIALS:?}; line sets full={} core={} mini={} tiny={}; families {:?}; \
+             configurations are de-duplicated, so all (configuration, query) pairs are distinct. Paths: every file and \
+             every directory of depth <= 2 over the names {NAMES:?} and of depth 3 below {DEEP_FIRST:?} ({n_queries} \
+             queries per configuration; with a nested file the file `a` is not asked). Non-trivial = git reports a \
+             deciding pattern (positive or negative) for the path.",
+            ls.full.len(),
+            ls.core.len(),
+            ls.mini.len(),
+            ls.tiny.len(),
             fams.iter().map(|(n, c)| format!("{n}={}", c.len())).collect::<Vec<_>>()
         ),
         samples: samples.take(),
         exhaustive: true,
         extra: [
-            ("configurations".to_string(), json!(configs_run.get())),
+            ("configurations".to_string(), json!(total.configs)),
             ("families".to_string(), Value::Object(family_counts)),
             ("queries_per_configuration".to_string(), json!(n_queries)),
             ("git_version".to_string(), json!(version)),
+            ("git_processes".to_string(), json!(total.git_processes)),
             ("git_says_ignored".to_string(), json!(total.git_ignored)),
             ("git_negative_rule_decides".to_string(), json!(total.git_negative_decides)),
             ("ignored_because_parent_dir_pruned".to_string(), json!(total.jj_pruned_by_parent)),
@@ -1068,7 +1333,7 @@ fn main() {
             ),
             ("full_lines".to_string(), json!(ls.full.len())),
             ("full_lines_that_never_decided".to_string(), json!(never.len())),
-            ("full_lines_that_never_decided_examples".to_string(), json!(never.iter().take(12).collect::<Vec<_>>())),
+            ("full_lines_that_never_decided_examples".to_string(), json!(never.iter().take(16).collect::<Vec<_>>())),
             ("snapshot_route_configurations".to_string(), json!(snap_cfgs.len())),
             ("snapshot_route_snapshots".to_string(), json!(snap_runs.get())),
             ("snapshot_route_files_tracked".to_string(), json!(snap_tracked.get())),
